@@ -12,7 +12,9 @@ from vlib.appworld import AppWorld
 from vlib.ref import trxmodel
 
 LEVEL = "model_checking"
-F = 900000        # kHz; everybody shares one carrier so that "running" is visible as "receives"
+F = 900000        # kHz; tuned transceivers share one carrier so that "running" is visible as "receives"
+FH = 901000       # kHz; the (single-channel) hopping allocation uses another carrier, so that a hopping
+                  # configuration that should have been forgotten shows up as mis-routing
 
 
 def configs(tier):
@@ -51,7 +53,7 @@ class Spec:
             else:
                 self.alpha.append(("tune", i))
             if i < 2 or n <= 3:
-                self.alpha.append(("ctrl", i, "SETFH 0 0 %d %d" % (F, F)))
+                self.alpha.append(("ctrl", i, "SETFH 0 0 %d %d" % (FH, FH)))
 
     def build(self):
         return AppWorld(self.defs, ind_period=1)
@@ -98,8 +100,9 @@ class Spec:
         # queue forgetting: for every transceiver the reference considers running
         running = [i for i in range(n) if W.model.trx[i].running]
         for i in running:
-            script = [("burst", i, 2), ("ctrl", i, "POWEROFF"), ("tune", i), ("ctrl", i, "POWERON"),
-                      ("tick",), ("tick",), ("tick",), ("tick",)]
+            script = [("burst", i, 2), ("ctrl", i, "POWEROFF"), ("tune", i), ("ctrl", i, "POWERON"), ("tick",)]
+            # traffic after the cycle (the clock may have restarted from frame 0, so frame numbers repeat)
+            script += [("burst", j, 1) for j in range(n)] + [("tick",), ("tick",), ("tick",)]
             for ev in script:
                 r = self.step(W, ev)
                 W.nprobe += 1
